@@ -1043,6 +1043,16 @@ func (e *engine) lostErrors(layers map[string]bool) {
 			p := bodyParts{txs: b.parts.txs, uncles: bad, wds: b.parts.wds}
 			e.run(&concrete{idx: -1, variant: fmt.Sprintf("lost:un-badrlp%d", i), blocks: b.name, key: keyOf(1, b.hash[:]), content: encBody(p), mode: "honest", era: b.era}, layers)
 		}
+		// the other container of the same (empty) withdrawals: a Shanghai block without withdrawals offered in the two-field legacy
+		// container, a pre-Shanghai block offered in the Shanghai container with the empty list (F-C02-7 / sweep mutant D/01)
+		if b.parts.wds != nil && len(b.parts.wds) == 0 {
+			p := bodyParts{txs: b.parts.txs, uncles: b.parts.uncles}
+			e.run(&concrete{idx: -1, variant: "container:legacy-for-shanghai", blocks: b.name, key: keyOf(1, b.hash[:]), content: encBody(p), mode: "honest", era: b.era}, layers)
+		}
+		if b.parts.wds == nil {
+			p := bodyParts{txs: b.parts.txs, uncles: b.parts.uncles, wds: [][]byte{}}
+			e.run(&concrete{idx: -1, variant: "container:shanghai-for-legacy", blocks: b.name, key: keyOf(1, b.hash[:]), content: encBody(p), mode: "honest", era: b.era}, layers)
+		}
 		if len(b.parts.wds) > 1 {
 			wds := append([][]byte{}, b.parts.wds...)
 			wds[0] = []byte{0xc1}
